@@ -186,42 +186,18 @@ func (c *Check) prependHeaderShape(rule string) {
 		c.require(lenOK, rule, "prependHeader", "length field", pos, "octets 16..17 hold big-endian uint16(len(body)+19)")
 		c.require(typOK, rule, "prependHeader", "type octet", pos, "octet 18 holds the type argument")
 	}
-	// marker: counted loop 0..16 storing 0xFF at index i
-	okM := false
-	for _, b := range fn.Blocks {
-		for _, in := range b.Instrs {
-			phi, ok := in.(*ssa.Phi)
-			if !ok {
-				break
-			}
-			lo, hi, okc := countedLoop(phi)
-			if !okc || lo != 0 || hi != 16 {
-				continue
-			}
-			for _, r := range *phi.Referrers() {
-				ia, ok := r.(*ssa.IndexAddr)
-				if !ok || ia.Index != ssa.Value(phi) {
-					continue
-				}
-				for _, rr := range *ia.Referrers() {
-					if st, ok := rr.(*ssa.Store); ok && st.Addr == ssa.Value(ia) {
-						if cst, ok := st.Val.(*ssa.Const); ok && cst.Value != nil && cst.Int64() == 255 {
-							dom := true
-							for _, pr := range b.Preds {
-								if b.Dominates(pr) && !st.Block().Dominates(pr) {
-									dom = false
-								}
-							}
-							if dom {
-								okM = true
-							}
-						}
-					}
+	// marker: a step-1 loop over 0..15 storing 0xFF
+	okM := markerLoopCovers(fn, func(ia *ssa.IndexAddr) bool {
+		for _, rr := range *ia.Referrers() {
+			if st, ok := rr.(*ssa.Store); ok && st.Addr == ssa.Value(ia) {
+				if cst, ok := st.Val.(*ssa.Const); ok && cst.Value != nil && cst.Int64() == 255 {
+					return true
 				}
 			}
 		}
-	}
-	c.require(okM, rule, "prependHeader", "marker", p.Pos(fn.Pos()), "a counted loop i=0..15 stores 0xFF at header[i] on every iteration")
+		return false
+	})
+	c.require(okM, rule, "prependHeader", "marker", p.Pos(fn.Pos()), "a step-1 loop over indices 0..15 stores 0xFF into every marker octet of the header")
 }
 
 func (c *Check) writeUpdateContract(rule string) {
